@@ -40,4 +40,12 @@ CHECKS = {
   note='Entrance pupil from the independent ABCD reference; vignetted aim points only required to shrink; telecentric '
        'launch with object index 1.',
   design='3/C03'),
+ 'C16': dict(
+  technique='Hypothesis-generated lenses with apertures / absorbing media / coatings x ray bundles; per-surface '
+            'intensity reference model recomputed from the recorded points',
+  level='Recorded intensity at every surface of every finite ray equals the product model (absorption over the '
+        'geometric segment, aperture test in an independently derived local frame, coating factor), stays in [0,1], '
+        'never increases; rays.i and SpotDiagram intensities equal the last record. Counter-example search.',
+  note='Polarization off; edge rays within 1e-9 of an aperture rim not judged; k from my own table interpolation.',
+  design='3/C16'),
 }
